@@ -44,7 +44,7 @@ def add_bc(b1, b2):
 
 def generate(rng, tier):
     cases = []
-    for _ in range(80 if tier == "quick" else 2000):
+    for _ in range(gen.N(tier, 80, 2000)):
         shape, xs, flat, bc, lanes = c02.gen_spline(rng, "Q", tier, nmax=8)
         qs = gen.queries_q(rng, xs, 5, ext=True)
         ext = bc != "per" or True
@@ -67,7 +67,7 @@ def extra(rng, tier):
         lines.append(a); lines.append(b)
         checks.append((len(lines) - 2, len(lines) - 1, f, what, tol))
 
-    reps = 70 if tier == "quick" else 1800
+    reps = gen.N(tier, 70, 1800)
     for _ in range(reps):
         S = rng.choice(["Q", "Q", "F"])
         kind = rng.choice(["lin", "bil", "spl", "spl"])
